@@ -47,6 +47,7 @@ type Type struct {
 	HasKey   bool    `json:",omitempty"`
 	Basic    string  `json:",omitempty"`
 	AltSpell string  `json:",omitempty"` // basic: spelling used in parameter lists (identical type)
+	GenAlias bool `json:",omitempty"` // generic instance of the user package spelled through the generic alias BoxOf[T] = Box[T]
 	AliasSpell string `json:",omitempty"` // named local type: the user files spell it through this alias (type <AliasSpell> = <Name>)
 	Len      int     `json:",omitempty"`
 	RecvOnly bool    `json:",omitempty"`
@@ -268,6 +269,9 @@ func (c *Case) Expr(id TypeID, from string) string {
 	case KAIface:
 		return "interface{ " + c.T(t.Elem).Method + "() uint32 }"
 	case KGeneric:
+		if t.GenAlias && t.Pkg == "" && from == "" {
+			return t.Name + "Of[" + c.Expr(t.Elem, from) + "]"
+		}
 		return q(t.Name, t.Pkg) + "[" + c.Expr(t.Elem, from) + "]"
 	}
 	return "invalid"
